@@ -134,6 +134,7 @@ pub fn all() -> Vec<CheckDef> {
                 Family { enumerate: None, variant: "", name: "T4-upgrade-racing-cascade", strategy: |_| templates::t4(), cases: |t| t.pick(8_000, 80_000) },
                 Family { enumerate: None, variant: "", name: "T6-zero-weak-recount", strategy: |_| templates::t6(), cases: |t| t.pick(8_000, 80_000) },
                 Family { enumerate: None, variant: "", name: "T3-reader-on-chain-harris-unlink", strategy: |_| templates::t3(), cases: |t| t.pick(6_000, 60_000) },
+                Family { enumerate: None, variant: "", name: "T14-two-writers-on-one-cell", strategy: |_| templates::t14(), cases: |t| t.pick(6_000, 60_000) },
             ],
             exec: rcworld::exec,
             rule: "sequential and concurrent programs that build object graphs (edges only from lower to higher rank, weak edges unrestricted) and release them in generated order; non-trivial = at least 3 objects, at least one reclaimed through the cascade and at least one as a deferred root; distinct = distinct hash of the case",
@@ -193,6 +194,7 @@ pub fn all() -> Vec<CheckDef> {
                 },
                 Family { enumerate: None, variant: "", name: "T7-restamp-then-cas", strategy: |_| templates::t7(), cases: |t| t.pick(16_000, 160_000) },
                 Family { enumerate: None, variant: "", name: "T13-cell-changed-away-and-back-around-a-parked-cas", strategy: |_| templates::t13(), cases: |t| t.pick(8_000, 80_000) },
+                Family { enumerate: None, variant: "", name: "T14-two-writers-on-one-cell", strategy: |_| templates::t14(), cases: |t| t.pick(8_000, 80_000) },
             ],
             exec: rcworld::exec,
             rule: "programs hammering AtomicRc cells with load/store/swap/compare_exchange(_weak)/compare_exchange_tag; non-trivial = at least one successful and one failed CAS, or a CAS whose expected snapshot differed from the cell's word in the internal epoch bits only; distinct = distinct hash of the case",
